@@ -73,3 +73,19 @@ Proof.
   destruct (every_path_well_locked f Hin tr o Hx) as [st' [Ht _]].
   exact (tr_run_unlock _ _ _ _ _ _ Ht E).
 Qed.
+
+(* every analysed function takes its lock at most once per call: a handler call is ONE critical
+   section, so a whole message is handled atomically with respect to the other messages *)
+Lemma skeletons_one_section : forallb one_section all_skeletons = true.
+Proof. vm_compute. reflexivity. Qed.
+
+Lemma one_section_le f : one_section f = true -> (acq 200 (fs_body f) <= 1)%nat.
+Proof. unfold one_section. intros H. apply PeanoNat.Nat.leb_le. exact H. Qed.
+
+Theorem every_path_one_acquisition f :
+  In f all_skeletons -> forall tr o, exec (fs_body f) tr o -> (count_locks tr <= 1)%nat.
+Proof.
+  intros Hin tr o Hx. pose proof skeletons_one_section as H. rewrite forallb_forall in H.
+  pose proof (one_section_le f (H f Hin)) as H1.
+  pose proof (acq_sound _ _ _ Hx _ H1) as Hc. exact (PeanoNat.Nat.le_trans _ _ _ Hc H1).
+Qed.
